@@ -411,3 +411,13 @@ int wb_waitlist_len(const void *wl)
     wb_wlrec *r = wl_find((const ABTI_waitlist *)wl, 0);
     return r ? r->n : 0;
 }
+
+/* the pool a pending migration request names (NULL if the unit has no migration data yet) */
+const void *wb_thread_migration_target(ABT_thread th)
+{
+    ABTI_thread *p = ABTI_thread_get_ptr(th);
+    ABTI_thread_mig_data *d = NULL;
+    if (ABTI_thread_get_mig_data(gp_ABTI_global, ABTI_local_get_local(), p, &d) != ABT_SUCCESS || !d)
+        return NULL;
+    return __atomic_load_n(&d->p_migration_pool.val, __ATOMIC_RELAXED);
+}
